@@ -65,7 +65,7 @@ class World:
     def dump(self):
         con = sqlite3.connect(self.path)
         rows = dict(con.execute('SELECT id, v FROM ta'))
-        kids = sorted(con.execute('SELECT id, a_id FROM tb'))
+        kids = sorted(con.execute('SELECT id, a_id FROM tb WHERE id < 3'))
         con.close()
         return (rows.get(1) or 0, (rows[2] or 0) if 2 in rows else -1), kids
 
@@ -84,28 +84,58 @@ def execute(w, st, ev):
     op, x = ev['op'], ev['x']
     val = x or None
     if op == 'Begin':
-        st['s'] = db_session(strict=bool(x))
-        st['s'].__enter__()
+        if x & 2:
+            # the session is a @db_session generator function; every call below runs inside it, between two yields
+            @db_session(strict=bool(x & 1))
+            def session_gen():
+                result = None
+                while True:
+                    cmd = yield result
+                    if cmd is None:
+                        return
+                    result = cmd()
+            st['gen'] = session_gen()
+            next(st['gen'])
+        else:
+            st['s'] = db_session(strict=bool(x & 1))
+            st['s'].__enter__()
         return 'ok', set()
+
+    def inside(f):
+        return st['gen'].send(f) if 'gen' in st else f()
     if op == 'ObtainSeed':
-        st['b'] = w.B[1]
-        st['o'] = st['b'].a
+        def f():
+            st['b'] = w.B[1]
+            st['o'] = st['b'].a
+        inside(f)
         return 'ok', set()
     if op == 'ObtainLoaded':
-        st['o'] = w.A[1]
-        st['b'] = w.B[2]
+        def f():
+            st['o'] = w.A[1]
+            st['b'] = w.B[2]
+        inside(f)
         return 'ok', set()
     if op == 'ObtainCreated':
         st['o'] = w.A(id=2, v=val)
-        st['b'] = w.B[1]
+        st['b'] = w.B(id=3)        # no database access: a session may end without ever having had a connection
         return 'ok', set()
     if op == 'ReadV':
-        return 'ok', {st['o'].v or 0}
+        return 'ok', {inside(lambda: st['o'].v) or 0}
     if op == 'SetV':
         st['o'].v = val
         return 'ok', set()
     if op == 'ReadColl':
-        return 'ok', {b.id for b in st['o'].bs}
+        return 'ok', inside(lambda: {b.id for b in st['o'].bs})
+    if op == 'End' and 'gen' in st:
+        g = st.pop('gen')
+        if x == 0:
+            try:
+                g.send(None)
+            except StopIteration:
+                pass
+        else:
+            g.close()
+        return 'ok', set()
     if op == 'End':
         s = st.pop('s')
         if x == 0:
@@ -204,6 +234,12 @@ def run_walk(w, nodes, succ, init, rng, max_steps):
                 s.__exit__(Boom, Boom(), None)
             except Exception:
                 pass
+        g = st.pop('gen', None)
+        if g is not None:
+            try:
+                g.close()
+            except Exception:
+                pass
         while core.local.db_session is not None:
             try:
                 core.local.db_session.__exit__(Boom, Boom(), None)
@@ -238,7 +274,7 @@ def run(ctx):
         if bad:
             ops = [t['op'] for t in trace]
             last = trace[-1]
-            sig = 'C32:%s:pony=%s:strict=%s:end=%s' % (last['op'], last['out'], trace[0]['x'],
+            sig = 'C32:%s:pony=%s:begin=%s:end=%s' % (last['op'], last['out'], trace[0]['x'],
                                                       next((t['x'] for t in trace if t['op'] == 'End'), '-'))
             if ctx.mismatch(sig, bad, {'trace': trace}):
                 if len(ctx.violations) >= 5:
